@@ -399,6 +399,7 @@ class Node(object):
         server.cust = False
         server.busy = False
         individual.server = False
+        self.undo_wrap_up(server)
         server.busy_time = self.increment_time(server.busy_time, individual.exit_date - individual.service_start_date)
         server.total_time = self.now - server.start_date
         if server.offduty:
@@ -450,11 +451,9 @@ class Node(object):
         if isinf(self.c) or self.c == 0:
             self.server_utilisation = None
         else:
-            for server in self.servers:
-                self.all_servers_total.append(server.total_time)
-                self.all_servers_busy.append(server.busy_time)
-            total_time = sum(self.all_servers_total)
-            self.server_utilisation = sum(self.all_servers_busy) / total_time if total_time > 0 else None
+            total_time = sum(self.all_servers_total + [server.total_time for server in self.servers])
+            busy_time = sum(self.all_servers_busy + [server.busy_time for server in self.servers])
+            self.server_utilisation = busy_time / total_time if total_time > 0 else None
 
     def finish_service(self):
         """
@@ -523,6 +522,7 @@ class Node(object):
         """
         Kills a server when they go off duty.
         """
+        self.undo_wrap_up(srvr)
         srvr.total_time = self.increment_time(self.next_event_date, -srvr.start_date)
         self.overtime.append(self.increment_time(self.next_event_date, -srvr.shift_end))
         self.all_servers_busy.append(srvr.busy_time)
@@ -732,6 +732,15 @@ class Node(object):
         self.write_interruption_record(individual, destination=next_node.id_number)
         self.release(individual, next_node, reroute=True)
 
+    def undo_wrap_up(self, server):
+        """
+        Takes back the busy time credited for a service in progress
+        when a previous simulation run stopped (see wrap_up_servers).
+        """
+        if server.busy_time_before_wrap_up is not None:
+            server.busy_time = server.busy_time_before_wrap_up
+            server.busy_time_before_wrap_up = None
+
     def update_next_end_service_without_server(self):
         """
         Updates the next end of a slotted service in the `possible_next_events` dictionary.
@@ -844,7 +853,9 @@ class Node(object):
             for srvr in self.servers:
                 srvr.total_time = self.increment_time(current_time, -srvr.start_date)
                 if srvr.busy:
-                    srvr.busy_time += self.increment_time(current_time, -srvr.cust.service_start_date)
+                    if srvr.busy_time_before_wrap_up is None:
+                        srvr.busy_time_before_wrap_up = srvr.busy_time
+                    srvr.busy_time = srvr.busy_time_before_wrap_up + self.increment_time(current_time, -srvr.cust.service_start_date)
 
     def write_individual_record(self, individual):
         """
